@@ -144,7 +144,7 @@ def filtered_range(interp, lo, hi, pred, tag, own_task=False):
 # list comprehension  [x for x in L if c(x)]  over a list of symbolic length
 # ------------------------------------------------------------------------------------------------------------------
 
-def comprehension_hook(interp, elt, gens):
+def comprehension_hook(interp, elt, gens, pure_calls=(), any_iter=False):
     """[A] Python semantics of a filtering list comprehension `[x for x in L if c(x)]` where L is a SymList: the sub-list of
     the elements that satisfy c, in order = (CNT(N), m -> L[SEL(m)]) of the filter theory with p(k) = c(L[k]), N = len(L)
     (the comprehension IS the loop `for x in L: if c(x): out.append(x)`, whose invariant is proved once for
@@ -153,6 +153,12 @@ def comprehension_hook(interp, elt, gens):
     quietly for other positions.  Records dict(CNT, SEL, p, N) in path.ghost['comp_filters'].  Other forms -> None."""
     import ast as _ast
 
+    if len(gens) == 1 and not gens[0].ifs and not gens[0].is_async and isinstance(gens[0].target, _ast.Name) \
+            and isinstance(elt, _ast.Name) and elt.id == gens[0].target.id and isinstance(gens[0].iter, _ast.Name):
+        src0 = interp.eval(gens[0].iter)
+        if isinstance(src0, SymList) and concrete_int(src0.length) is None:  # [x for x in L]: a new list with the same elements
+            return src0.copy()
+        return None
     if len(gens) != 1 or len(gens[0].ifs) != 1 or gens[0].is_async:
         return None
     g = gens[0]
@@ -160,8 +166,8 @@ def comprehension_hook(interp, elt, gens):
         return None
     is_range = isinstance(g.iter, _ast.Call) and _ast.unparse(g.iter.func) == "range" and len(g.iter.args) == 1 \
         and isinstance(g.iter.args[0], _ast.Name)
-    if not (isinstance(g.iter, _ast.Name) or is_range):
-        return None
+    if not (isinstance(g.iter, _ast.Name) or is_range or any_iter):
+        return None  # any_iter: the contract module vouches that the iterable expression is a pure read (evaluated once, as Python does)
     src = interp.eval(g.iter)
     if is_range:
         src = from_iterable(interp, src)  # [j for j in range(n) if c(j)] with symbolic n
@@ -170,6 +176,8 @@ def comprehension_hook(interp, elt, gens):
     for n in _ast.walk(g.ifs[0]):
         # BoolOp is accepted: on symbolic operands `and`/`or` are evaluated without branching (all operands), and a
         # concretely decided operand only removes later operands whose value cannot matter
+        if isinstance(n, _ast.Call) and not n.keywords and _ast.unparse(n.func) in pure_calls:
+            continue  # a call the contract module declares pure and branch free under its hooks (e.g. `type(<abstract op>)`)
         if isinstance(n, (_ast.Call, _ast.NamedExpr, _ast.Lambda, _ast.ListComp, _ast.IfExp)):
             return None
     from . import models
